@@ -1433,6 +1433,37 @@ fn small_input(seed: u64, index: u64) -> Input {
             Input { kind, entry: Entry::Record, skip, bytes: b, control: None }
         }
         14 => {
+            if r.chance(1, 3) {
+                // pointer graph: 2-byte pointer cells that target any cell (an earlier one, themselves, a
+                // later one) or any offset, a few labels in between; the read starts at the last cell, so
+                // self-pointers and cycles are also reached THROUGH another pointer (seeded C01-m1)
+                let n = r.range(2, 6) as usize;
+                let mut b: Vec<u8> = Vec::new();
+                let mut cells = Vec::new();
+                for _ in 0..n {
+                    if r.chance(1, 2) {
+                        let l = r.range(1, 3) as usize;
+                        b.push(l as u8);
+                        b.extend(r.bytes(l));
+                        if r.chance(1, 2) {
+                            b.push(0);
+                        }
+                    }
+                    cells.push(b.len());
+                    b.extend([0xC0, 0]);
+                }
+                for i in 0..n {
+                    let c = cells[i];
+                    let mut t = if r.chance(1, 3) { c } else { cells[r.below(n as u64) as usize] };
+                    if r.chance(1, 4) {
+                        t = r.below(b.len() as u64) as usize;
+                    }
+                    b[c] = 0xC0 | (t >> 8) as u8;
+                    b[c + 1] = t as u8;
+                }
+                let skip = cells[n - 1];
+                return Input { kind: "ptr-graph", entry: Entry::Name, skip, bytes: b, control: None };
+            }
             // names: built then mutated
             let mut w = Wire::default();
             for _ in 0..r.range(0, 3) {
